@@ -713,6 +713,13 @@ class Executor:
         args = [self.eval_operand(st, o) for o in ops]
         self.calls_seen[callee] = self.calls_seen.get(callee, 0) + 1
         dest_ty = self.type_of_local(st, dest.local)
+        if callee.startswith("<Self as ") and args:
+            # a trait's default method calling another trait method: dispatch on the receiver's type
+            v = args[0]
+            while isinstance(v, (Ref, BoxRef)):
+                v = self.deref(st, v)
+            if isinstance(v, Adt):
+                callee = "<%s as %s" % (v.ty, callee[len("<Self as "):])
         m = self.RE_FNTRAIT.match(callee)
         if m:
             tup = args[1]
